@@ -103,6 +103,9 @@ func c19Generate(r *core.Run) []c19Exchange {
 	// every request size x every response size
 	for _, rq := range c19Sizes {
 		for _, rs := range c19Sizes {
+			if r.Quick() && (rq == 3500000 || rs == 3500000) && !(rq+rs == 3501024 || rq+rs == 5500001 || rq+rs == 4500000) {
+				continue // quick: the 3.5 MB payloads only against 1 KiB, 1 000 000 and 2 000 001
+			}
 			add([]string{"POST", "PUT"}[rng.Intn(2)], rq, rs, true)
 		}
 	}
@@ -284,7 +287,7 @@ func C19(r *core.Run) {
 			"nth": []int{1, 2}, "timeouts": true, "workers": 16}
 	}
 	const T = 45000
-	spec := map[string]interface{}{"mode": "c19", "t_ms": T, "conc": 16, "backends": c19Backends, "exchanges": exs, "chains": chains, "blobs": blobs, "blob_big_all_stacks": !r.Quick(), "faults": faults}
+	spec := map[string]interface{}{"mode": "c19", "t_ms": T, "conc": r.Pick(8, 16), "backends": c19Backends, "exchanges": exs, "chains": chains, "blobs": blobs, "blob_big_all_stacks": !r.Quick(), "faults": faults}
 	res := e3Run(r, bin, "c19", spec, time.Duration(r.Pick(300, 1200))*time.Second)
 
 	byTok := map[string]*c19Exchange{}
@@ -310,6 +313,8 @@ func C19(r *core.Run) {
 			Poller     *string             `json:"poller"`
 			Discovered *int                `json:"discovered"`
 			Stats      map[string]int      `json:"exchange_stats"`
+			Phase      *string             `json:"phase"`
+			PhaseMs    int                 `json:"phase_ms"`
 			Sigs       map[string][]string `json:"sigs"`
 		}
 		if err := json.Unmarshal(ln, &probe); err != nil {
@@ -416,6 +421,8 @@ func C19(r *core.Run) {
 			}
 		case probe.Discovered != nil:
 			r.Set(fmt.Sprintf("api_calls_seen_template_%d", *probe.Discovered), probe.Sigs)
+		case probe.Phase != nil:
+			r.Set("phase_done_after_ms_"+*probe.Phase, probe.PhaseMs)
 		case probe.Stats != nil:
 			r.Set("exchange_stats", probe.Stats)
 		}
